@@ -28,6 +28,7 @@ RULE += (' Also: cached_property with and without lock, a deleting task, two awa
 RULE += (' Also: tee scenarios in which the cancelled child is the last live one (siblings closed first; n=1).')
 RULE += (' Also: scoped scenarios over the __getattr__-forwarding adapter.')
 RULE += (' Also: stacks unwound by aclose() instead of a with-block.')
+RULE += (' Also: an advance into which the cancellation was thrown must not hand out an item; re-iterable and lazily set-up sources.')
 ASSUMPTIONS = ["user cleanup (source aclose, lock release) does not itself suspend",
                "an async-generator source cancelled inside its own await dies with the cancellation (language semantics)"]
 EXHAUSTIVE = {"quick": False, "thorough": False}
@@ -62,8 +63,10 @@ def cases(tier, seed, shard, nshards):
             spec = gen.iter_spec(rng, name, 3)
             if name == "cycle":
                 spec["steps"] = rng.randint(1, 6)
+        # (... also re-iterables that hand out a separate iterator per request - the one the tool advanced is the one
+        # that must be released - and sources that set themselves up when asked for their iterator)
         flav = [rng.choice(["async_gen", "async_class", "async_class", "async_class_bare", "async_class_proxy",
-                            "async_class_future"]) for _ in spec["srcs"]]
+                            "async_class_future", "async_iterable", "async_class_lazy"]) for _ in spec["srcs"]]
         yield {"kind": "tool", "spec": spec, "flav": flav, "susp": rng.choice([1, 1, 2]), "fn_susp": rng.choice([0, 1]),
                "fnfl": "async_def"}
     yield from special.cases(tier, seed, shard, nshards, rng)
@@ -105,6 +108,8 @@ def run_tool(case, stats):
         else:
             pairs = list(zip(srcs, flav))
         for st, f in pairs:
+            if f == "async_iterable" and not st.given:
+                continue  # (never asked for an iterator: nothing anybody could own)
             if f != "async_class_bare" and not st.released():  # (an iterator without aclose cannot be released)
                 leaked.append(st.sid)
         if leaked:
